@@ -63,6 +63,8 @@ def run(ctx):
                 ("jit(rollout)", c["calls_rollout"], range(nrun), range(nrun)),
                 ("reset+step(override odd)", c["calls_step"], range(nrun + 1), [k for k in range(nrun) if k % 2 == 0]),
                 ("step after init", c["calls_first"], range(1), []),
+                (f"run from starting_step={c['k0']}", c["calls_late"], range(c["k0"], c["k0"] + c["n_late"]), range(c["k0"], c["k0"] + c["n_late"])),
+                ("run on a used graph state rewound to step 0", c["calls_reused"], range(nrun), range(nrun)),
             ):
                 res.evaluations += 1
                 exp, masked = expected_compiled(tim, sup, parts, sparts)
